@@ -19,6 +19,34 @@ type c09bCase struct {
 	WinMax    int64    `json:"win_max"`
 	Threshold int64    `json:"threshold"`
 	Samples   []Sample `json:"samples"`
+	// Bulk: a long quiet stretch - BulkN samples whose in-flight stays at or below the window size, so the window
+	// cannot close however much time passes - inserted before sample BulkAt (RTTs alternate between two values; one
+	// window then folds tens of thousands of samples)
+	BulkAt   int   `json:"bulk_at,omitempty"`
+	BulkN    int   `json:"bulk_n,omitempty"`
+	BulkRTT  int64 `json:"bulk_rtt,omitempty"`
+	BulkRTT2 int64 `json:"bulk_rtt2,omitempty"`
+}
+
+// samples expands the case into the sequence fed to the limit.
+func (c c09bCase) samples() []Sample {
+	if c.BulkN <= 0 {
+		return c.Samples
+	}
+	at := c.BulkAt % (len(c.Samples) + 1)
+	out := append([]Sample(nil), c.Samples[:at]...)
+	var start int64
+	if at > 0 {
+		start = c.Samples[at-1].Start
+	}
+	for j := 0; j < c.BulkN; j++ {
+		r := c.BulkRTT
+		if j%3 == 2 {
+			r = c.BulkRTT2
+		}
+		out = append(out, Sample{Start: start, RTT: r, Inf: j % int(c.WinSize+1)})
+	}
+	return append(out, c.Samples[at:]...)
 }
 
 // recLimit is a recording core.Limit with a scripted estimate.
@@ -56,6 +84,12 @@ func genC09b(t *rapid.T) c09bCase {
 		s.Drop = rapid.IntRange(0, 99).Draw(t, "drop") < dropPct
 		c.Samples = append(c.Samples, s)
 	}
+	if rapid.IntRange(0, 24).Draw(t, "bulk") == 0 {
+		c.BulkAt = rapid.IntRange(0, n).Draw(t, "bulkAt")
+		c.BulkN = rapid.SampledFrom([]int{300, 5000, 32767, 65534, 65535, 65536, 65537, 70000, 131071, 131072}).Draw(t, "bulkN")
+		c.BulkRTT = rapid.Int64Range(maxI64(1, c.Threshold), 5_000_000).Draw(t, "bulkRTT")
+		c.BulkRTT2 = rapid.Int64Range(maxI64(1, c.Threshold), 600_000_000).Draw(t, "bulkRTT2")
+	}
 	return c
 }
 
@@ -80,7 +114,7 @@ func runC09b(_ *testing.T, c c09bCase) kit.Outcome {
 	reset := func() {
 		minRTT, sum, count, maxInf, drop, windowHasDropBeforeClosing = math.MaxInt64, 0, 0, 0, false, false
 	}
-	for i, s := range c.Samples {
+	for i, s := range c.samples() {
 		if !ambiguous {
 			if s.RTT < c.Threshold {
 				subThresh = true
@@ -159,6 +193,9 @@ func runC09b(_ *testing.T, c c09bCase) kit.Outcome {
 	if ambiguous {
 		out.Labels = append(out.Labels, "truncated-at-drop-only-window")
 	}
+	if c.BulkN >= 65535 {
+		out.Labels = append(out.Labels, "window-of->=65535-samples")
+	}
 	return out
 }
 
@@ -166,7 +203,7 @@ func TestC09_windowed(t *testing.T) {
 	kit.RequireMode(t, "std")
 	kit.Check(t, kit.Prop[c09bCase]{
 		ID: "C09", Quick: 4000, Thor: 800_000,
-		Rule: "WindowedLimit over a recording delegate fed generated (start, rtt, in-flight, drop) sequences; delegate's OnSample list compared element-wise with a reference fold; non-trivial = >=2 windows closed, a drop inside a window that is not its closing sample, a sub-threshold sample",
+		Rule: "WindowedLimit over a recording delegate fed generated (start, rtt, in-flight, drop) sequences, some with a quiet stretch of up to 131072 samples folded into one window; delegate's OnSample list compared element-wise with a reference fold; non-trivial = >=2 windows closed, a drop inside a window that is not its closing sample, a sub-threshold sample",
 		Gen:  genC09b, Run: runC09b,
 	})
 }
